@@ -347,7 +347,7 @@ var chk *vlib.Check
 
 // judge compares got with the reference for (script bytes, ctx) on a layer and reports.
 // tree = verif/space parse of the bytes that were fed to the code under test.
-func judge(fn, layer string, era int, slot uint64, obs *obsTable, sc string, enc []byte, tree *space.Node, c ctxT, got bool, isLeaf bool, variant string) {
+func judge(fn, layer string, era int, slot uint64, obs *obsTable, sc string, enc []byte, tree *space.Node, c ctxT, got bool, isLeaf bool, variant string, canon func() (bool, bool)) {
 	want, err := refEval(tree, c, nil)
 	if err != nil {
 		chk.Internal("reference cannot read own script %s: %v", sc, err)
@@ -368,6 +368,10 @@ func judge(fn, layer string, era int, slot uint64, obs *obsTable, sc string, enc
 			layersMu.Unlock()
 		}
 		if _, dup := reported.LoadOrStore(key, true); dup {
+			return
+		}
+		if atomic.AddInt64(&nKeys, 1) > maxKeys {
+			atomic.AddInt64(&overflowKeys, 1)
 			return
 		}
 		replay := map[string]any{"layer": layer, "era": era, "slot": fmt.Sprint(slot), "script": sc, "script_cbor": fmt.Sprintf("%x", enc), "context": c.String(),
@@ -400,13 +404,23 @@ func judge(fn, layer string, era int, slot uint64, obs *obsTable, sc string, enc
 		return
 	}
 	if variant != "" {
-		report(fmt.Sprintf("%s|re-encoded|%s", fn, siteClass(tree, variant)), " (same script in canonical encoding behaves)")
-		return
+		// only a re-encoding problem if the canonical encoding of the same script behaves
+		if cg, ok := canon(); ok && cg == want {
+			report(fmt.Sprintf("%s|re-encoded|%s", fn, siteClass(tree, variant)), " (same script in canonical encoding behaves)")
+			return
+		}
 	}
-	report(fmt.Sprintf("%s|combinator|shape=%s|got=%v", fn, shapeOf(tree), got), " (leaves behave, combination does not)")
+	outer, _ := looksScript(tree)
+	report(fmt.Sprintf("%s|combinator|outer=%s|got=%v", fn, outer, got), " (leaves behave, combination does not; shape "+shapeOf(tree)+")")
 }
 
 var reported, reportedAt sync.Map
+
+// at most maxKeys distinct violation keys are written out (a mass failure, e.g. a rule
+// dropped from an era list, would otherwise write thousands of replay files)
+const maxKeys = 40
+
+var nKeys, overflowKeys int64
 var layersMu sync.Mutex
 var layersOf = map[string][]string{}
 
@@ -559,7 +573,7 @@ func runE(obs *obsTable, sc script, enc []byte, ctxs []ctxT, slots []uint64, var
 	if !bytes.Equal(h[:], want) {
 		vc := "canonical"
 		if variant != "" {
-			vc = variantClass(variant)
+			vc = "re-encoded"
 		}
 		chk.Violation("NativeScript.Hash|"+vc, fmt.Sprintf("script %s (%x): Hash()=%x, blake2b-224(00‖original bytes)=%x", sc.desc, enc, h[:], want),
 			map[string]any{"script_cbor": fmt.Sprintf("%x", enc), "variant": variant})
@@ -574,7 +588,13 @@ func runE(obs *obsTable, sc script, enc []byte, ctxs []ctxT, slots []uint64, var
 			} else {
 				lc.reject++
 			}
-			judge("NativeScript.Evaluate", "Evaluate", 0, slot, obs, sc.desc, enc, tree, c, got, sc.depth == 0, variant)
+			judge("NativeScript.Evaluate", "Evaluate", 0, slot, obs, sc.desc, enc, tree, c, got, sc.depth == 0, variant, func() (bool, bool) {
+				cn, err := decodeScript(sc.enc)
+				if err != nil {
+					return false, false
+				}
+				return cn.Evaluate(slot, s, e, keySets[c.keys]), true
+			})
 		}
 	}
 	return true
@@ -655,7 +675,7 @@ func (f *eraFix) runR(sc script, enc []byte, c ctxT, slot uint64, variant string
 	want := refHash(enc)
 	vc := "canonical"
 	if variant != "" {
-		vc = variantClass(variant)
+		vc = "re-encoded"
 	}
 	nss := tx.Witnesses().NativeScripts()
 	if len(nss) != 1 {
@@ -686,9 +706,32 @@ func (f *eraFix) runR(sc script, enc []byte, c ctxT, slot uint64, variant string
 	} else {
 		lc.reject++
 	}
-	// sanity of the driver: the decoded transaction must carry the interval we encoded
-	judge(fn, "rules("+era+")", f.env.Era, slot, f.obs, sc.desc, enc, tree, c, got, sc.depth == 0, variant)
+	judge(fn, "rules("+era+")", f.env.Era, slot, f.obs, sc.desc, enc, tree, c, got, sc.depth == 0, variant, func() (bool, bool) { return f.gotOnly(sc.enc, c, slot) })
 	return 1
+}
+
+// gotOnly: the bare observation (script bytes in a transaction -> any NativeScriptFailedError?).
+func (f *eraFix) gotOnly(enc []byte, c ctxT, slot uint64) (bool, bool) {
+	s := f.spec(c)
+	if c.keys&1 != 0 {
+		s.SignWith(keyA)
+	}
+	if c.keys&2 != 0 {
+		s.SignWith(keyB)
+	}
+	s.Native = []*space.Node{space.Raw(enc)}
+	tx, err := DecodeTx(f.env.Era, s.Bytes())
+	if err != nil {
+		return false, false
+	}
+	got := true
+	for _, r := range f.env.RunAll(tx, slot, f.stub) {
+		var nsf allegra.NativeScriptFailedError
+		if r.Err != nil && errors.As(r.Err, &nsf) {
+			got = false
+		}
+	}
+	return got, true
 }
 
 // ---------- main ----------
@@ -880,15 +923,24 @@ func main() {
 			c.Distinct("R:" + EraNames[era] + ":" + s.desc)
 		}
 		lc0.flush()
-		vlib.Parallel(len(depth1Big), func(i int) {
+		// depth 1 in transactions. thorough: all 666 scripts over the 10 leaves x 256 contexts;
+		// quick: the 258 scripts over the 6 leaves {sig a, sig b, before 0, before 5, hereafter 5, hereafter 2^64-1} x 196 contexts
+		d1R, cxR := depth1Big, ctxsLeaf
+		if !c.Thorough() {
+			d1R = mkDepth1([]script{mkLeafKey(keyA), mkLeafKey(keyB), mkLeafTime(4, 0), mkLeafTime(4, 5), mkLeafTime(5, 5), mkLeafTime(5, math.MaxUint64)})
+			cxR = ctxs
+		}
+		vlib.Parallel(len(d1R), func(i int) {
 			var lc localCount
-			s := depth1Big[i]
-			for _, cx := range ctxsLeaf {
+			s := d1R[i]
+			for _, cx := range cxR {
 				f.runR(s, s.enc, cx, 7, "", &lc)
 			}
 			c.Distinct("R:" + EraNames[era] + ":" + s.shape)
 			lc.flush()
 		})
+		c.Set("layerR_depth1_scripts_per_era", len(d1R))
+		c.Set("layerR_depth1_contexts", len(cxR))
 		phase("R " + EraNames[era] + " depth<=1 done")
 		// slot independence: the ledger semantics do not read the current slot
 		vlib.Parallel(len(leavesBig), func(i int) {
@@ -977,9 +1029,7 @@ func main() {
 
 	phase("R done")
 	// ---- evidence ----
-	for k, v := range reStats {
-		c.Set("reenc_E_"+k, v)
-	}
+	c.Set("reenc_layerE_decoder_verdicts", reStats)
 	var rk []string
 	rejR.Range(func(k, v any) bool { rk = append(rk, fmt.Sprintf("%s=%d", k, *(v.(*int64)))); return true })
 	sort.Strings(rk)
@@ -987,6 +1037,9 @@ func main() {
 	c.Set("outcomes", map[string]int64{"script-satisfied": totAccept, "script-not-satisfied": totReject})
 	for k := range layersOf {
 		sort.Strings(layersOf[k])
+	}
+	if overflowKeys > 0 {
+		c.Set("violation_keys_not_written_out", overflowKeys)
 	}
 	if len(layersOf) > 0 {
 		c.Set("disagreements_by_key_and_layer", layersOf)
@@ -1053,7 +1106,14 @@ func replayOne(c *vlib.Check) {
 	if r.IsLeaf {
 		depth = 0
 	}
-	sc := script{desc: r.Script, enc: enc, depth: depth}
+	// canonical encoding of the same script = every header in its minimal definite form
+	canonTree := tree.Clone()
+	canonTree.Walk(func(n *space.Node, _ []int) { n.Form = space.FormMin })
+	scEnc := enc
+	if r.Variant != "" {
+		scEnc = canonTree.Encode()
+	}
+	sc := script{desc: r.Script, enc: scEnc, depth: depth}
 	if r.Era == 0 {
 		obs := &obsTable{m: map[obsKey]bool{}}
 		if !(r.IsLeaf && r.Variant == "") {
